@@ -72,7 +72,7 @@ def prepareFormat (t : Str) : Except Err Str :=
 /-! ### `_parse_with_formatting` (coloured messages) -/
 
 /-- `Formatter.get_field` after `formatter_field_name_split`: `args[first]` or `kwargs[first]`
-(an EMPTY first component is looked up in kwargs – this is where F5 shows) -/
+(an EMPTY first component would be looked up in kwargs) -/
 def getFieldSplit {V} (env : Env V) (sp : First × Steps) : Except Err V :=
   match (match sp.1 with
       | .num i => (match env.args[i]? with | some v => Except.ok v | none => Except.error Err.indexError)
@@ -80,14 +80,26 @@ def getFieldSplit {V} (env : Env V) (sp : First × Steps) : Except Err V :=
   | .error e => .error e
   | .ok v => walk env v sp.2
 
-/-- loguru's auto-numbering: decided on the WHOLE field name; `auto = none` is Python's `False`.
-Returns the split name to look up and the new counter.  (`str(n)` splits to `(n, [])`.) -/
+/-- `re.split(r"[.\\[]", field_name, maxsplit=1)[0]`: the text before the first separator -/
+def headOf (name : Str) : Str := name.takeWhile (fun c => !Gen.headSeparators.contains c)
+
+/-- the text the numbering tests look at (generated: whole name before d5e7115, first component since) -/
+def numberingText (name : Str) : Str :=
+  match Gen.numberingSubject with
+  | .wholeName => name
+  | .firstComponent => headOf name
+
+/-- loguru's auto-numbering; `auto = none` is Python's `False`.  Returns the split name to look up and
+the new counter.  In the automatic case the name becomes `str(n) + name` (or `str(n)`), which
+`formatter_field_name_split` cuts into `(n, steps of name)` (resp. `(n, [])`) because `name` is empty or
+starts with a separator there – a fact about CPython checked by the `split` correspondence stream. -/
 def numberField (name : Str) (auto : Option Nat) : Except Err ((First × Steps) × Option Nat) :=
-  if name.isEmpty then
+  if (numberingText name).isEmpty then
     match auto with
     | none => .error .valueError
-    | some n => .ok ((First.num n, ([], none)), some (n + 1))
-  else if allDigits name then
+    | some n =>
+      .ok ((First.num n, if Gen.autoIndexPrefixesName then (fieldNameSplit name).2 else ([], none)), some (n + 1))
+  else if allDigits (numberingText name) then
     match auto with
     | some (_ + 1) => .error .valueError
     | _ => .ok (fieldNameSplit name, none)
